@@ -75,6 +75,29 @@ def make_resilient(mod, ctx):
                 if depth["n"] > 1:
                     raise TieUnavailable(msg) from None
                 return None
+            except (Infra, MemoryError, AssertionError):
+                raise
+            except Exception as e:  # noqa
+                # safety net: an exception raised INSIDE the implementation (innermost frame outside the harness) on an input a
+                # probe did not guard.  Probes only feed legal inputs and handle the rejections the library documents, so this
+                # is recorded like `Ctx.guard` does — an oracle failure `<probe>.escaped_exception`, replayed by re-running the
+                # run with the recorded seed — instead of ending the whole check as an infrastructure error (exit 2), which
+                # would hide the violation that caused it (found with a sign flip in CTMCGrid.middle: RecursionError in CGMY).
+                tb = e.__traceback__
+                last = None
+                while tb is not None:
+                    last = tb
+                    tb = tb.tb_next
+                fname = os.path.abspath(last.tb_frame.f_code.co_filename) if last is not None else here
+                if fname.startswith(here) or depth["n"] > 1:
+                    raise
+                import traceback as _tb
+                ctx.fail("oracle", f"{mod.__name__.split('.')[-1]}.{name}.escaped_exception",
+                         {"probe": name, "seed": ctx.seed, "tier": "thorough" if ctx.thorough else "quick"},
+                         {"what": "the implementation raised on an input of this probe", "exception": f"{type(e).__name__}: {e}"[:400],
+                          "where": f"{fname}:{last.tb_lineno}", "traceback_tail": _tb.format_exception(type(e), e, e.__traceback__)[-6:]},
+                         cls={"exception": type(e).__name__})
+                return None
             finally:
                 depth["n"] -= 1
         return inner
@@ -210,6 +233,11 @@ def main(argv):
             rec = json.loads(open(replay).read())
             if ".src.search" in rec.get("probe", "") or rec.get("probe", "").endswith(".source_tie"):
                 srctie.search(prop, ctx)      # the directed search of the source tie is deterministic: re-run it
+            elif rec.get("probe", "").endswith(".escaped_exception"):
+                import random as _random      # no single input was isolated: the run with the recorded seed is the replay
+                ctx.seed = int(rec.get("input", {}).get("seed", ctx.seed))
+                ctx.rng = _random.Random(f"{prop}:{ctx.seed}")
+                mod.run(ctx)
             else:
                 mod.replay(ctx, rec)
         else:
